@@ -128,7 +128,7 @@ def run_case(ctx, case):
         if not np.array_equal(a, keep):
             return Result(False, True, {"why": "spline_filter modified its input"})
         back = I.shift(a0.astype(np.float64), [0] * a0.ndim, order=order, mode="mirror")
-        if not np.allclose(back, a0.astype(np.float64), atol=1e-6):
+        if not np.allclose(back, a0.astype(np.float64), atol=1e-9):      # values are small integers: rounding error is ~1e-13
             return Result(False, True, {"why": "B-spline expansion of the spline_filter coefficients does not reproduce the samples",
                                         "order": order, "maxdiff": float(np.abs(back - a0).max())})
         return Result(True, len(set(case["vals"])) > 1, None, "prefilter/order%d" % order)
